@@ -46,7 +46,9 @@ def gen_functional(g, tier):
         N, H, T = g.small((1, 2, 3)), g.small((1, 2, 3)), g.small((1, 2, 3, 4, 6))
     const_spot = g.chance(0.05)
     s0 = g.dy(1, 8, sb)
-    spot = [[[s0 if const_spot else (g.dy(F(1, 4), 15 if dtype == "float64" else 7, sb))
+    neg_spot = g.chance(0.25)      # real-valued price series (rates, spreads): the cost is c * |dUnit| * S, not |c * dUnit * S|
+    smax = 15 if dtype == "float64" else 7
+    spot = [[[s0 if const_spot else (g.dy(-smax, smax, sb) if neg_spot else g.dy(F(1, 4), smax, sb))
               for _ in range(T)] for _ in range(H)] for _ in range(N)]
     sign = g.weighted([("mixed", 6), ("pos", 1), ("neg", 1), ("zero", 1)])
     ulim = 4 if dtype == "float64" else 2
@@ -108,7 +110,7 @@ def gen_functional(g, tier):
     tv = g.chance(0.2) and not final
     return dict(kind="functional", dtype=dtype, ss=[N, H, T], su=su, spot=spot, unit=unit, cost=cost,
                 payoff=payoff, pdim=pdim, first=first, final=final, tv=tv,
-                tags=dict(cost=ckind, payoff=pkind, shape=skind, sign=sign, const_spot=const_spot))
+                tags=dict(cost=ckind, payoff=pkind, shape=skind, sign=sign, const_spot=const_spot, neg_spot=neg_spot))
 
 
 def to_req(c):
